@@ -33,7 +33,8 @@ def _case(draw):
         if side is ins and draw(st.booleans()):
             c["a"] = [[{s_: big, t_: -rest}, float(draw(st.integers(1, 4)))]]
         return {"c": c, "maps": [[s_, t_]], "kind": "near-cancel", "witness": w}
-    kind = draw(st.sampled_from(["fresh", "fresh", "existing-same-side", "existing-other-side", "absent", "same", "swap", "chain", "roundtrip"]))
+    kind = draw(st.sampled_from(["fresh", "fresh", "existing-same-side", "existing-other-side", "absent", "same", "swap", "chain", "roundtrip",
+                                 "cross-swap", "free-then-take"]))
     if kind == "fresh":
         maps = [[draw(st.sampled_from(allv)), "q"]]
     elif kind == "existing-same-side":
@@ -60,13 +61,25 @@ def _case(draw):
         else:
             s, t = side[0], side[1]
             maps = [[s, "tmp"], [t, s], ["tmp", t]]
+    elif kind == "cross-swap":
+        # an input and an output exchange their names through a temporary: every step is legal when applied in order
+        i0, o0 = draw(st.sampled_from(ins)), draw(st.sampled_from(outs))
+        maps = [[i0, "tmp"], [o0, i0], ["tmp", o0]]
+    elif kind == "free-then-take":
+        # the first mapping frees a name that the second gives to a variable of the other direction
+        i0, o0 = draw(st.sampled_from(ins)), draw(st.sampled_from(outs))
+        maps = [[o0, "q"], [i0, o0]] if draw(st.booleans()) else [[i0, "q"], [o0, i0]]
     elif kind == "chain":
         v = draw(st.sampled_from(allv))
         maps = [[v, "q"], ["q", "r"], ["r", draw(st.sampled_from(["s", v]))]]
     else:
         v = draw(st.sampled_from(allv))
         maps = [[v, "q"], ["q", v]]
-    return {"c": c, "maps": maps, "kind": kind, "witness": w}
+    case = {"c": c, "maps": maps, "kind": kind, "witness": w}
+    if draw(st.integers(0, 5)) == 0:
+        # the same contract object has been renamed before (the result thrown away): it must still be the contract it was
+        case["pre"] = [draw(st.sampled_from(allv)), draw(st.sampled_from(["p0", "q"]))]
+    return case
 
 
 @st.composite
@@ -76,6 +89,8 @@ def _named_case(draw):
     scheme = draw(st.sampled_from(["plain", "plain", "plain", "prefix", "symbols", "shapes"]))
     if scheme != "plain":
         m = gens.NAME_SCHEMES[scheme]
+        if "pre" in case:
+            case["pre"] = [m.get(case["pre"][0], case["pre"][0]), m.get(case["pre"][1], case["pre"][1])]
         case = dict(case, c=gens.rename_contract(case["c"], m), maps=[[m.get(a, a), m.get(b, b)] for a, b in case["maps"]],
                     witness={m.get(k, k): v for k, v in case["witness"].items()}, names=scheme)
     return case
@@ -115,6 +130,9 @@ def run_case(case):
     if s0 != "ok":
         return {"viol": None, "nontrivial": False, "labels": labels + ["construction-refused"], "outcome": "construction-refused"}
     d0 = env.c_data(con)
+    if case.get("pre"):
+        env.call("rename_variable", con.rename_variable, env.Var(case["pre"][0]), env.Var(case["pre"][1]))
+        labels.append("renamed-before")
     maps = case["maps"]
     # reference
     ref = d0
